@@ -9,7 +9,9 @@ fragmentation and timeouts, `__remainder` left from the banner, direct read_all 
 wire bytes, decoded (cmd, payload, seqno) and error kinds must agree line by line.
 Oracle (model-independent): the real primitives for every cipher x MAC x compression, configured through the real
 Transport._activate_outbound/_activate_inbound, a sender and a receiver Packetizer over an in-memory socket with
-random read fragmentation and mid-stream key switches: decoded == sent, nothing left over.  Long in-flight runs
+random read fragmentation and mid-stream key switches: decoded == sent, nothing left over.  Two or three concurrent senders on
+one Packetizer under random schedules (lock acquisition, inside the compressor, between partial sends): the wire must be
+whole packets carrying every message once, decodable through one inflater in wire order.  Long in-flight runs
 (70-600 messages) behind the RECEIVER's own rekey request with the shipped overflow allowance must be delivered.
 """
 from pv import lib_packet as L
@@ -546,6 +548,22 @@ def run(ctx):
             ctx.dist("oracle:big-payloads:" + comp)
             if err:
                 ctx.fail(err[0], err[1], err[2])
+    # two logical threads inside send_message of one Packetizer under random schedules (yield points: write-lock
+    # acquisition incl. expiry of a timed one, inside the stateful compressor, between partial sends of write_all)
+    nconc = 400 if ctx.thorough else 90
+    for ci in range(nconc):
+        c, m = suites[(ci * 7) % len(suites)]
+        comp = comps[ci % len(comps)] if ci % 4 else "zlib"
+        try:
+            err = L.concurrent_senders(ctx, Packetizer, Message, c, m, comp, 8000 + ci, nthreads=2 + (ci % 5 == 0),
+                                       per_thread=2 + ci % 2)
+        except Exception as e:
+            if type(e).__name__ == "InfraError":
+                raise
+            err = ("concurrent-send:" + exc_site(e), {"cipher": c, "mac": m, "compression": comp}, repr(e))
+        ctx.case(("concurrent", c, m, comp, ci), err is None)
+        if err:
+            ctx.fail(err[0], err[1], err[2])
     # long in-flight runs behind the receiver's own rekey request, shipped overflow allowance
     for bi, (c, m) in enumerate(big_suites + ([suites[7], suites[31], suites[50]] if ctx.thorough else [])):
         for nflight in ((70, 200, 600) if bi == 0 or ctx.thorough else (ctx.rng.choice([70, 130, 300]),)):
